@@ -1,7 +1,10 @@
 (** C13 — calling a server function remotely equals calling it directly.
-    Statements only; proofs live in ServerFn/*Proofs.v. *)
+    Statements only; proofs live in ServerFn/*Proofs.v.  The serde codecs are parameters
+    (hypothesis [codecs_ok]); everything leptos wrote around them is modelled. *)
 From Coq Require Import List NArith.
-From LV Require Import Base.Bytes Router.Url ServerFn.ErrorCodec ServerFn.ErrorCodecProofs.
+From LV Require Import Base.Bytes Router.Url Router.UrlProofs
+  ServerFn.ErrorCodec ServerFn.ErrorCodecProofs ServerFn.Base64Proofs ServerFn.UrlFormProofs
+  ServerFn.Protocol ServerFn.ProtocolProofs.
 Import ListNotations.
 Open Scope N_scope.
 
@@ -28,3 +31,117 @@ Theorem C13_de_malformed :
   decode C cparse data = inr msg -> de C cparse data = Std KDeserialization msg.
 Proof. exact de_malformed. Qed.
 Print Assumptions C13_de_malformed.
+
+(** base64 as server_fn uses it (URL_SAFE for the URL form, STANDARD_NO_PAD for binary
+    encoders' text form): decoding an encoding returns the bytes *)
+Theorem C13_base64url_roundtrip :
+  forall (url pad : bool) (l : bytes),
+  all_bytes l = true -> b64_decode url pad (b64_encode url pad l) = inl l.
+Proof. exact base64_roundtrip. Qed.
+Print Assumptions C13_base64url_roundtrip.
+
+(** the URL-embedded form: whatever query (and fragment) the base URL already carries —
+    stale __path/__err pairs of an earlier failure included — the client reads back exactly
+    this server function's path and this error from the URL [to_url] produces *)
+Theorem C13_url_error_roundtrip :
+  forall (C : Type) (cdisplay : C -> bytes) (cparse : bytes -> option C)
+         (u : purl) (path : bytes) (e : sfe C),
+  err_ok C cdisplay cparse e -> utf8_valid path = true ->
+  read_back C cparse (to_url C cdisplay u path e) = (Some path, Some e).
+Proof. exact url_error_roundtrip. Qed.
+Print Assumptions C13_url_error_roundtrip.
+
+(** an __err value that is not canonical URL-safe base64 still gives an error value *)
+Theorem C13_decode_err_malformed :
+  forall (C : Type) (cparse : bytes -> option C) s err,
+  b64_decode true true s = inr err ->
+  decode_err C cparse s = Std KDeserialization (b64_error_display err).
+Proof. exact decode_err_malformed. Qed.
+Print Assumptions C13_decode_err_malformed.
+
+(** strip_error_info removes the __path/__err pairs and nothing else.
+    PARTIAL: stated for queries whose decoded pairs are valid UTF-8 strings ([pair_ok]);
+    that from_utf8_lossy always returns such strings is a std fact not proved here. *)
+Theorem C13_strip_removes_only_err_pairs_partial :
+  forall u : purl,
+  Forall pair_ok (form_parse (match u_query u with Some q => q | None => [] end)) ->
+  form_parse (match u_query (strip_error_info u) with Some q => q | None => [] end)
+  = filter (fun kv => negb (is_err_key (fst kv)))
+           (form_parse (match u_query u with Some q => q | None => [] end))
+  /\ u_pre (strip_error_info u) = u_pre u /\ u_frag (strip_error_info u) = u_frag u.
+Proof. exact strip_removes_only_err_pairs. Qed.
+Print Assumptions C13_strip_removes_only_err_pairs_partial.
+
+(** remote = direct: for every argument on which the codecs decode what they encode (the
+    assumption about serde & co.) and every result, Ok or Err of any variant and message,
+    the client path (encode request, transport, decode on the server, run the body, encode
+    the response or the error response, status rule, decode on the client) returns what
+    the body returns, and the redirect hook stays silent *)
+Theorem C13_remote_eq_direct :
+  forall (C : Type) (cdisplay : C -> bytes) (cparse : bytes -> option C) (In Out : Type)
+         (enc_in : In -> bytes + bytes) (dec_in : bytes -> In + bytes)
+         (enc_out : Out -> bytes + bytes) (dec_out : bytes -> Out + bytes)
+         (in_err_kind : kind) (ct_in ct_out path : bytes) (body : In -> Out + sfe C)
+         (parse_referer : bytes -> referer),
+  contains L_text_html ct_in = false ->
+  forall x : In,
+  codecs_ok C cdisplay cparse In Out enc_in dec_in enc_out dec_out body x ->
+  remote C cdisplay cparse In Out enc_in dec_in enc_out dec_out in_err_kind ct_in ct_out path
+         body parse_referer x
+  = (direct C In Out body x, []).
+Proof. exact remote_eq_direct. Qed.
+Print Assumptions C13_remote_eq_direct.
+
+(** malformed responses: whatever arrives, the client's result is a value of the declared
+    type; an error status always gives [Err (de body)] … *)
+Theorem C13_malformed_total_error_status :
+  forall (C : Type) (cparse : bytes -> option C) (Out : Type) (dec_out : bytes -> Out + bytes)
+         (res : response),
+  400 <= rs_status res <= 599 ->
+  client_result C cparse Out dec_out res = (Err (de C cparse (rs_body res)), []).
+Proof. exact client_error_status. Qed.
+Print Assumptions C13_malformed_total_error_status.
+
+(** … a success status with an undecodable body gives a Deserialization error … *)
+Theorem C13_malformed_total_undecodable :
+  forall (C : Type) (cparse : bytes -> option C) (Out : Type) (dec_out : bytes -> Out + bytes)
+         (res : response) (msg : bytes),
+  ~ (400 <= rs_status res <= 599) -> dec_out (rs_body res) = inr msg ->
+  client_result C cparse Out dec_out res = (Err (Std KDeserialization msg), []).
+Proof. exact client_undecodable. Qed.
+Print Assumptions C13_malformed_total_undecodable.
+
+(** … and no response at all leads to the panic outcome *)
+Theorem C13_malformed_total :
+  forall (C : Type) (cparse : bytes -> option C) (Out : Type) (dec_out : bytes -> Out + bytes)
+         (res : response),
+  fst (client_result C cparse Out dec_out res) <> Panic.
+Proof. exact client_result_total. Qed.
+Print Assumptions C13_malformed_total.
+
+(** malformed requests: a payload the input codec rejects is answered with status 500 and
+    the wire form of an error; the client obtains exactly that error value *)
+Theorem C13_malformed_request :
+  forall (C : Type) (cdisplay : C -> bytes) (cparse : bytes -> option C) (In Out : Type)
+         (dec_in : bytes -> In + bytes) (enc_out : Out -> bytes + bytes)
+         (dec_out : bytes -> Out + bytes) (in_err_kind : kind) (ct_out path : bytes)
+         (body : In -> Out + sfe C) (parse_referer : bytes -> referer)
+         (data msg : bytes) (acc : option bytes),
+  dec_in data = inr msg ->
+  (match acc with Some a => contains L_text_html a | None => false end) = false ->
+  utf8_valid msg = true ->
+  let res := run_on_server C cdisplay In Out dec_in enc_out in_err_kind ct_out path body
+               parse_referer {| rq_data := data; rq_accept := acc; rq_referer := None |} in
+  rs_status res = 500
+  /\ rs_body res = ser C cdisplay (Std in_err_kind msg)
+  /\ client_result C cparse Out dec_out res = (Err (Std in_err_kind msg), []).
+Proof. exact server_malformed_request. Qed.
+Print Assumptions C13_malformed_request.
+
+(** the multipart boundary lookup (a panic before fix 51c8f23) yields a value for every
+    Content-Type header, present or not *)
+Theorem C13_multipart_boundary_total :
+  forall (C : Type) (parse_boundary : bytes -> option bytes) (ct : option bytes),
+  multipart_boundary C parse_boundary ct <> Panic.
+Proof. exact multipart_boundary_total. Qed.
+Print Assumptions C13_multipart_boundary_total.
